@@ -10,10 +10,11 @@ import random
 
 PROPERTY = "C02"
 RULE = (
-    "case = (kernel spec, mean, likelihood in {gauss, fixed, fixed+learn, multitask rank 0/1}, n, d, batch shape, prior assignment "
-    "(independent priors per parameter and one prior INSTANCE shared by two parameters), objective in {mll, loo, sum_mll}, path in "
-    "{cholesky, default, cg+slq (statistical, K repetitions)}, seed); distinct = cell without seed; non-trivial iff n>=2 and at least one "
-    "gradient component is > 1e-6"
+    'case = (kernel spec, mean, likelihood in {gauss, fixed, fixed+learn, multitask rank 0/1}, n, d, batch shape, prior assignment (independent '
+    'priors per parameter, one prior INSTANCE shared by two parameters, registration by closure or by parameter name, constructor `*_prior=` '
+    'arguments), objective evaluated on the model or on a deep copy with moved hyper-parameters, objective in {mll, loo, sum_mll}, path in '
+    '{cholesky, default, cg+slq (statistical, K repetitions)}, seed); distinct = cell without seed; non-trivial iff n>=2 and at least one '
+    'gradient component is > 1e-6'
 )
 REQUIRED = ["mll_value", "mll_grad", "loo_value", "priors_enumerated", "sum_mll_is_mean", "mll_value_stochastic"]
 ASSUMPTIONS = [
